@@ -225,6 +225,7 @@ fn check(args: &[String]) -> i32 {
         let reqs: Vec<Value> = (0..*runs).map(|i| json!({"seed": bseed, "run": i, "faults": faults})).collect();
         let tb = Instant::now();
         let replies = pool::run_all(&cfg, &reqs);
+        write_digests(label, &replies);
         let mut classes: BTreeMap<String, (usize, String, String, String)> = BTreeMap::new();
         for (i, r) in replies.iter().enumerate() {
             evaluations += 1;
@@ -338,6 +339,21 @@ fn check(args: &[String]) -> i32 {
     } else {
         simkit::EXIT_OK
     }
+}
+
+/// Determinism self-test support: one line per run with a hash of the worker's full reply.
+fn write_digests(label: &str, replies: &[Reply]) {
+    let Ok(path) = std::env::var("VERIF_DIGEST_OUT") else { return };
+    let mut out = String::new();
+    for (i, r) in replies.iter().enumerate() {
+        let d = match r {
+            Reply::Ok(v) => format!("{:016x}", simkit::fnv(v.to_string().as_bytes())),
+            Reply::Died(_) => "died".to_string(),
+            Reply::Hung => "hung".to_string(),
+        };
+        out.push_str(&format!("{i} {d}\n"));
+    }
+    let _ = std::fs::write(format!("{path}.{label}"), out);
 }
 
 fn replay(args: &[String]) -> i32 {
